@@ -90,3 +90,19 @@ package scheduler
 //@ callreq sub: ncalls(delaySlotOffset) + ncalls(s.waitForEarlyFetchOrTimeout) == 1
 //@ callreq delaySlotOffset: a1 == dutyCtx && a2 == slot && a3 == duty && a4 == s.delayFunc
 //@ loop 1 invariant ncalls(delaySlotOffset) + ncalls(s.waitForEarlyFetchOrTimeout) == 1
+
+// Sync committee duties of the epoch being resolved: a contribution duty is defined only for slots from the
+// resolving slot to the end of ITS epoch, for the validator the beacon node named, with that validator's key.
+//@ func (s *Scheduler) resolveSyncCommDuties
+//@ props C15
+//@ requires slot.SlotsPerEpoch > 0 && slot.Slot < 4611686018427387904
+//@ callreq s.setDutyDefinition: a1.Type == core.DutySyncContribution && a1.Slot >= slot.Slot && a1.Slot == sl.Slot && sl.SlotsPerEpoch == slot.SlotsPerEpoch && sl.Epoch() == slot.Epoch()
+//@ callreq s.setDutyDefinition: a2 == slot.Epoch() && res(1, vals.PubKeyFromIndex(syncCommDuty.ValidatorIndex)) && a3 == res(0, vals.PubKeyFromIndex(syncCommDuty.ValidatorIndex))
+//@ callreq s.setDutyDefinition: core.PubKeyFrom48Bytes(syncCommDuty.PubKey) == a3 && a4 == core.NewSyncCommitteeDefinition(syncCommDuty)
+//@ callreq s.setDutyDefinition: a1.Slot == slot.Slot + ncalls(s.setDutyDefinition) - nBefore
+//@ ghost nBefore int
+//@ ghostcall vals.PubKeyFromIndex: nBefore = ncalls(s.setDutyDefinition)
+//@ loop 1 invariant true
+//@ loop 2 invariant true
+//@ loop 3 invariant sl.Slot >= slot.Slot && sl.SlotsPerEpoch == slot.SlotsPerEpoch && sl.Slot == slot.Slot + ncalls(s.setDutyDefinition) - nBefore
+//@ after logResolvedDuties: true
